@@ -56,21 +56,22 @@ def run(tier):
     ]
     thorough = tier == "thorough"
 
-    # ---- MC: the mechanism delivers the property (two edits deep)
-    mc, _ = lc.generate("LifeC04MC.cfg" if thorough else "LifeC04MCq.cfg",
-                        {"LIFE_NLABELS": 3 if thorough else 2}, tier_workers=8, timeout=2400)
-    ck.add_tlc(mc, "Lifecycle/c04 two edits",
-               {"circuits": 5, "labels": 3 if thorough else 2, "versions": "{1,2,3}^2",
-                "MaxEdits": 2, "proof edits": thorough})
-    # ---- anti-vacuity: the literal reading is refuted, by the known corner only
-    strict, _ = lc.generate("LifeC04Strict.cfg", {}, tier_workers=2, timeout=600,
-                            expect_violation=True)
-    if not strict.violated:
-        raise vlib.ToolError("BindsDescriptionStrict was not refuted: the model lost the "
-                             "zero-valued public-input corner (or the invariant is vacuous)")
-    ck.notes.append("TLC refutes BindsDescriptionStrict with a moved zero-valued public-input "
-                    "row (the corner of the known finding); BindsDescription (with the corner "
-                    "exempted) and BindsStatement hold")
+    if not lc.dev_mbt_only():
+        # ---- MC: the mechanism delivers the property (two edits deep)
+        mc, _ = lc.generate("LifeC04MC.cfg" if thorough else "LifeC04MCq.cfg",
+                            {"LIFE_NLABELS": 3 if thorough else 1}, tier_workers=8, timeout=2400)
+        ck.add_tlc(mc, "Lifecycle/c04 two edits",
+                   {"circuits": 5, "labels": 3 if thorough else 1, "versions": "{1,2,3}^2",
+                    "MaxEdits": 2, "proof edits": thorough})
+        # ---- anti-vacuity: the literal reading is refuted, by the known corner only
+        strict, _ = lc.generate("LifeC04Strict.cfg", {}, tier_workers=2, timeout=600,
+                                expect_violation=True)
+        if not strict.violated:
+            raise vlib.ToolError("BindsDescriptionStrict was not refuted: the model lost the "
+                                 "zero-valued public-input corner (or the invariant is vacuous)")
+        ck.notes.append("TLC refutes BindsDescriptionStrict with a moved zero-valued public-input "
+                        "row (the corner of the known finding); BindsDescription (with the corner "
+                        "exempted) and BindsStatement hold")
 
     # ---- MBT
     gen, scens = lc.generate("LifeC04.cfg", {"LIFE_NLABELS": 1}, tier_workers=4, timeout=900)
